@@ -34,13 +34,14 @@ def run(ctx):
         results.append(vlib.replay_sharded(ctx, "merge", full, "full", ["--leaf", "65536", "--seed", str(ctx.seed)], shards=16))
         big = gen(ctx, "big.ndjson", {"Sample = FALSE": "Sample = TRUE", "MaxVersions = 3": "MaxVersions = 10",
                                       'Splits = {"s1", "s2", "s3"}': 'Splits = {"s1", "s2", "s3", "s4", "s5", "s6", "s7", "s8"}',
-                                      'MPaths = {"p", "d/q"}': 'MPaths = {"p", "d/q", "r", "d/e/s"}',
+                                      'MPaths = {"p", "d/q"}': 'MPaths = {"p", "d/q", "r", "d/e/s", ".env", "env", "..data/v"}',
                                       'Hashes = {"h1", "h2"}': 'Hashes = {"h1", "h2", "h3"}'}, simulate="num=3000")
         results.append(vlib.replay_sharded(ctx, "merge", big, "big", ["--leaf", "4096", "--crc", "--seed", str(ctx.seed)], shards=16))
     else:
         small = gen(ctx, "small.ndjson", {"MaxVersions = 3": "MaxVersions = 2"})  # exhaustive for <= 2 versions
         results.append(vlib.replay_sharded(ctx, "merge", small, "small", ["--leaf", "65536", "--seed", str(ctx.seed)], shards=12))
         samp = gen(ctx, "samp.ndjson", {"Sample = FALSE": "Sample = TRUE", "MaxVersions = 3": "MaxVersions = 5",
+                                        'MPaths = {"p", "d/q"}': 'MPaths = {"p", "d/q", ".env", "env"}',
                                         'Hashes = {"h1", "h2"}': 'Hashes = {"h1", "h2", "h3"}'}, simulate="num=500")
         results.append(vlib.replay_sharded(ctx, "merge", samp, "samp",
                                            ["--leaf", "4096", "--seed", str(ctx.seed)] + (["--crc"] if ctx.seed % 2 else []), shards=12))
